@@ -297,7 +297,11 @@ def dvh_replay(scn_path, out_prefix, chunks, threads=12, timeout=1800):
 
 
 def dvh_explore(profile, seed_from, seed_to, out_prefix, chunks, threads=12, timeout=1800):
-    rc, out = sh([DVH, "explore", "--profile", profile, "--seeds", "%d..%d" % (seed_from, seed_to),
+    # profiles named mt:<p> run on the multi-threaded runtime under the real clock
+    mode = "explore"
+    if profile.startswith("mt:"):
+        mode, profile = "mt", profile[3:]
+    rc, out = sh([DVH, mode, "--profile", profile, "--seeds", "%d..%d" % (seed_from, seed_to),
                   "--out", out_prefix, "--chunks", str(chunks), "--threads", str(threads)], timeout=timeout)
     if rc != 0:
         raise ToolError("dvh explore failed:\n" + out[-3000:])
@@ -452,8 +456,43 @@ def write_evidence(prop, tier, seed, level, coverage, assumptions, wall, violati
 # --------------------------------------------------------------------------------------
 # DeltioActors model-checking runs
 # --------------------------------------------------------------------------------------
+def turns_mc(workdir, name, ops, switches=None, invariants=("InvCore", "InvRest", "InvNoDeadAttached", "InvMapsLive", "InvAcceptedPosted"),
+             workers=8, timeout=900):
+    """MCTurns: concurrent client processes over the core contract at turn granularity.
+    ops: dict process id -> TLA record text of its operation."""
+    workdir = os.path.abspath(workdir)
+    os.makedirs(workdir, exist_ok=True)
+    mod = "MCT_" + name
+    arms = " [] ".join('p = "%s" -> %s' % (p, rec) for p, rec in ops.items())
+    with open(os.path.join(workdir, mod + ".tla"), "w") as f:
+        f.write("---- MODULE %s ----\nEXTENDS MCTurns\nOpDef == [p \\in Procs |-> CASE %s]\n====\n" % (mod, arms))
+    sw = dict(AtomicCreate=False, AtomicDelete=False, AttachChecksDeleting=True)
+    if switches:
+        sw.update(switches)
+    lines = ["SPECIFICATION Spec", "CHECK_DEADLOCK FALSE", "CONSTANTS", "  SecMs = 1", "  MinAckSec = 2", "  MaxModSec = 4",
+             "  Slack = 0", "  Gran = 0", "  Procs = %s" % tla_value(set(ops.keys())), "  Op <- OpDef"]
+    for k, v in sw.items():
+        lines.append("  %s = %s" % (k, tla_value(v)))
+    lines.append("INVARIANT " + " ".join(invariants))
+    cfg = os.path.join(workdir, mod + ".cfg")
+    with open(cfg, "w") as f:
+        f.write("\n".join(lines) + "\n")
+    meta = os.path.join(workdir, "tlc-meta-%s-%d" % (name, os.getpid()))
+    cmd = ["timeout", str(timeout), "java", "-XX:+UseParallelGC", "-Xss64m", "-DTLA-Library=" + SPEC,
+           "-cp", TLA_JAR + ":/opt/veriftools/tla/CommunityModules-deps.jar", "tlc2.TLC",
+           "-workers", str(workers), "-metadir", meta, "-cleanup", "-noGenerateSpecTE",
+           "-config", cfg, os.path.join(workdir, mod + ".tla")]
+    rc, out = sh(cmd, timeout=timeout + 30, env={"JAVA_TOOL_OPTIONS": ""}, cwd=workdir)
+    shutil.rmtree(meta, ignore_errors=True)
+    err = None
+    if "Model checking completed. No error has been found." not in out:
+        m = re.search(r"Error: (Invariant (\S+) is violated|.*)", out)
+        err = m.group(1) if m else "TLC did not complete"
+    return {"stats": parse_mc(out), "error": err, "out": out, "trace": [l for l in out.splitlines() if l.startswith("State ")]}
+
+
 REPAIRED = dict(DeleteDrainsMailbox=True, ClosedMeansNotFound=True, PullWatchesDeleted=True, AttachDetached=True,
-                PullHandsOnWakeup=True,
+                PullHandsOnWakeup=True, SecondDeleteWaits=True,
                 NoRenotifyAfterPartialPull=False, SignalCreatedAfterPull=False, PostDoesNotNotify=False)
 
 
